@@ -38,8 +38,12 @@ func zzC07Exact() {
 	var d [6][6]float64
 	for i := 0; i <= n; i++ {
 		for j := i + 1; j <= n; j++ {
-			x := rt.Float64("pairDist")
-			rt.Assume(rt.And(x >= 0, x <= 1e30))
+			// an arbitrary non-negative integer: the index code only ever compares distances, so every order
+			// type of the pairwise distances is realised by integers; comparisons of exact int32 -> float64
+			// conversions are decided as integer comparisons
+			xi := rt.Int32("pairDist")
+			rt.Assume(xi >= 0)
+			x := float64(xi)
 			d[i][j], d[j][i] = x, x
 		}
 	}
